@@ -10,7 +10,7 @@ if [ "$TGT" = "auto" ]; then
   pk0=$(grep -m1 '^package ' $demo0 | awk '{print $2}' | sed 's/_test$//')
   case "$pk0" in tabula|main) TGT=. ;; *) if [ -d /repo/$pk0 ]; then TGT=$pk0; elif [ -d /repo/internal/$pk0 ]; then TGT=internal/$pk0; else TGT=zzdemo; fi ;; esac
 fi
-W=/tmp/wt-me
+W=${VERIF_SCRATCH:-/tmp/wt-me}
 name=$(basename $D)
 cd $W && git checkout -q -- . && git clean -fdq && git checkout -q --detach main
 if ! git apply --check $D/patch.diff 2>/dev/null; then echo "$name: PATCH DOES NOT APPLY to main"; exit 1; fi
